@@ -71,7 +71,23 @@ def accepted_family_cases(tier):
     return restricted_cases(tier)
 
 
+@st.composite
+def many_component_cases(draw, tier):
+    """nine to fifteen elements in three to five Condorcet blocks: several hard components in ONE run of the
+    partition-based algorithms (each component stays small, so exact solving is cheap and no oracle is needed here;
+    the exact algorithm itself is not run at this size: without cplex it solves ONE model over all the elements, which
+    can take minutes)"""
+    from vlib import configs as cfgs
+    name = draw(st.sampled_from(["parcons_default", "enum_parcons", "parcons_kwik_b2", "parcons_copeland_b3", "parcons_b2",
+                                 "parcons_bioco_b0", "bioconsert", "kwiksort", "copeland"]))
+    ds = draw(gen.datasets(max_n=15, min_n=9, max_m=5, shapes=["block_cyclic"], kinds=("dense", "str", "mixedstr", "negs")))
+    scheme = draw(st.one_of(gen.tie_averse_schemes(), gen.tie_averse_schemes(), gen.preset_multiples(), gen.free_schemes()))
+    return {"config": name, "env": "absent", "scheme": scheme, "dataset": ds, "at_most_one": True,
+            "rng": draw(st.integers(0, 999)), "via_mutation": None}
+
+
 def subchecks():
     return [HypSub("wellformed", alg_cases, check, quick=20000, thorough=250000),
+            HypSub("many_components", many_component_cases, check, quick=500, thorough=8000),
             HypSub("mixed_names", mixed_name_cases, check, quick=4000, thorough=50000),
             HypSub("accepted_families", accepted_family_cases, check, quick=4000, thorough=50000)]
